@@ -46,6 +46,17 @@ pub(crate) fn get_relative_parent_path(path: &Path) -> &Path {
     }
 }
 
+/// Returns the parent of a directory path. Unlike `Path::parent`, a directory written as `.`,
+/// as `..` (or ending with `..`) has a parent (`..` is appended), and the parent of the root
+/// is the root.
+pub(crate) fn get_parent_directory(directory: &Path) -> PathBuf {
+    match directory.components().next_back() {
+        Some(Component::Normal(_)) => get_relative_parent_path(directory).to_path_buf(),
+        Some(Component::RootDir) | Some(Component::Prefix(_)) => directory.to_path_buf(),
+        Some(Component::CurDir) | Some(Component::ParentDir) | None => directory.join(".."),
+    }
+}
+
 /// This function is an alternative to the `is_relative` method from std::path::Path.
 /// Darklua considers a require relative if the path starts with `.` or `..`.
 pub(crate) fn is_require_relative(path: &Path) -> bool {
